@@ -28,7 +28,9 @@ TRIGGERS = {
     "ooo-mem": lambda v, f: v in SUPER and (f["loads"] > 0 or f["ld_text"]) and (f["stores"] > 0 or f["st_text"]) and
                             (os.environ.get("VERIF_OOOMEM_WIDE", "") == "1" or f["line_conflict"] or f["mem_unexec"]),
     # README (fixed in MVP-6.2): on 6.0/6.1 the shadow of a slow (load-fed) conditional branch commits
-    "ooo-shadow": lambda v, f: v in ("mvp6-0", "mvp6-1") and f["ld_text"] and f["branches"],
+    "ooo-shadow": lambda v, f: v == "mvp6-1" and f["ld_text"] and f["branches"],
+    # M60-defect-1: a flush of MVP-6.0 cancels an OLDER load still waiting in another execute unit
+    "ooo-flushload": lambda v, f: v == "mvp6-0" and f["ld_text"] and f["branches"],
     # D29: two conditional branches in flight while loads keep the older one's neighbourhood busy: the younger
     # branch (e.g. a taken branch to the end label) takes effect although it is on the wrong path
     "ooo-2branch": lambda v, f: v in SUPER and v != "mvp6-0" and f["ld_text"] and f["cbr_text"] >= 2,
@@ -83,7 +85,7 @@ def run(ck, prop, stream, families_note, variants=None, judge=None, theorems=Non
     ck.cov["checker_cmd"] = "extract && lake build " + " ".join(mods + ["driver"]) + " && #print axioms audit; harness " + stream + " | driver (Spec.run) | compare"
     ck.cov["trusted_base"] = TRUSTED_COMMON + [
         "lean/MajoranaVerif/Spec/Run.lean is the oracle: one instruction at a time in program order; ret or running past the last instruction ends the run",
-        "lean/MajoranaVerif/Model/SeqMachine.lean, Mmu.lean, Mvp3.lean, Mvp4.lean, Mvp5.lean: hand-written cycle-accurate machine models of proc/mvp1..mvp5 (built from regenerated instruction semantics, latencies and constants); the theorems are about them; tied to the Go machines by exact agreement of status, cycle count and final state on every generated case (fields m1..m5 of the driver output)",
+        "lean/MajoranaVerif/Model/SeqMachine.lean, Mmu.lean, Mvp3.lean, Mvp4.lean, Mvp5.lean: hand-written cycle-accurate machine models of proc/mvp1..mvp5 and of the superscalar proc/mvp6-0 (Model/Mvp60.lean, Mvp60Fast.lean; eu = wu = 1..4) (built from regenerated instruction semantics, latencies and constants); the theorems are about them; tied to the Go machines by exact agreement of status, cycle count and final state on every generated case (fields m1..m5 and m60pK of the driver output; the MVP-6.0 model is compared with the GO run, wrong results included)",
         "Go harness worker pool, tick budget (verif hook Context.VerifTick, K=8·MemoryAccess·(steps+64)) and wall-clock watchdog",
         "known-finding trigger predicates in checklib/cpucheck.py (decidable predicates of the reference run)"]
     if not (okd and okh):
